@@ -371,59 +371,63 @@ def _mini_truth(e, v, n, flags, rd=None, nid=None, depth=0):
 
 
 def _r01b_constant_arms(repo, chk, g, fn, fe, flags):
-    """Constant tests: evaluate the emit flags for (truth of the constant, negated)."""
-    # which flag guards the body loop / the orelse loop
+    """Constant tests: the code between the start of the handler and the loops over node.body / node.orelse is evaluated over the
+    booleans (boolflow) for every combination of the facts it consults; whenever it consults the truth of a constant, the arm
+    that is visited afterwards must be the arm Python runs."""
+    from ..boolflow import enumerate_states, TooManyStates
     body_flag = orelse_flag = None
-    for loop in ast.walk(fn):
-        if isinstance(loop, ast.For) and enclosing_def(loop) is fn and isinstance(loop.iter, ast.Attribute):
-            for iff in loop.body:
-                if isinstance(iff, ast.If) and isinstance(iff.test, ast.Name):
-                    if loop.iter.attr == "body":
-                        body_flag = iff.test.id
-                    elif loop.iter.attr == "orelse":
-                        orelse_flag = iff.test.id
-    if body_flag is None or orelse_flag is None:
+    first_loop = None
+    for i, st in enumerate(fn.body):
+        for loop in ([st] if isinstance(st, ast.For) else []):
+            if isinstance(loop.iter, ast.Attribute) and loop.iter.attr in ("body", "orelse"):
+                for iff in loop.body:
+                    if isinstance(iff, ast.If) and isinstance(iff.test, ast.Name):
+                        if loop.iter.attr == "body":
+                            body_flag = iff.test.id
+                        else:
+                            orelse_flag = iff.test.id
+                if first_loop is None:
+                    first_loop = i
+    if body_flag is None or orelse_flag is None or first_loop is None:
         raise AnalysisError("handle_if: loops over node.body / node.orelse guarded by the emit flags not found")
-    emit = {body_flag, orelse_flag}
-    arms = []
-    for node in ast.walk(fn):
-        if isinstance(node, ast.If) and enclosing_def(node) is fn:
-            direct = [st for st in node.body + node.orelse if isinstance(st, ast.Assign) and len(st.targets) == 1 and isinstance(st.targets[0], ast.Name)
-                      and st.targets[0].id in emit and isinstance(st.value, ast.Constant)]
-            if direct:
-                arms.append(node)
-    if not arms:
-        raise AnalysisError("handle_if: constant-test arms (assignments to the emit flags) not found")
-    for node in arms:
-        guard = norm(node.test)
-        where = f"{g.path}:{node.lineno} in {fn.qual}"
-        # does the arm read the constant of the node the 'not' was stripped from, or of the whole test?
-        stripped = True
-        o = Origin(fn)
-        for a in ast.walk(node.test):
-            if isinstance(a, ast.Attribute) and a.attr in ("constant_value", "value") and not (isinstance(a.value, ast.Attribute) and a.value.attr == "constant_value"):
-                tg = o.tags(a.value, o.node_id(node.test))
-                if tg and "operand" not in tg and tg <= {"test"}:
-                    stripped = False
-        for v in (False, True):
-            for n in (False, True):
-                tid = fe.node_ids(node.test)
-                cond = _mini_truth(node.test, v, n, flags, fe.rd, tid[0] if tid else None)
-                if cond is None:
-                    raise AnalysisError(f"handle_if: constant-test arm '{guard}' is not understood")
-                branch = node.body if cond else node.orelse
-                state = {body_flag: True, orelse_flag: True}
-                for st in branch:
-                    if isinstance(st, ast.Assign) and isinstance(st.value, ast.Constant) and len(st.targets) == 1 and isinstance(st.targets[0], ast.Name):
-                        state[st.targets[0].id] = st.value.value
-                # v is the truth of the node whose constant is read: the operand of 'not' (stripped) or the whole test
-                python_takes_body = (v != n) if stripped else v
-                executed = "body" if state[body_flag] else ("orelse" if state[orelse_flag] else "nothing")
-                exp = "body" if python_takes_body else "orelse"
-                chk.judge("R01.b", f"generate_code:{fn.qual}:constant test [{guard}] value={v} negated={n}", executed == exp,
-                          f"for a constant {'operand' if stripped else 'test (whose value already includes the not)'} that is {v}{' under not' if n else ''} "
-                          f"the emitted code runs the {executed} arm, Python runs the {exp} arm",
-                          {"flags": state, "reads": "operand of not" if stripped else "whole test"}, where)
+    where = f"{g.path}:{fn.lineno} in {fn.qual}"
+    force = ast.parse(f"__has_b = bool(len(node.body) > 0)\n__has_o = bool(len(node.orelse) > 0)\n__b = bool({body_flag})\n__o = bool({orelse_flag})").body
+    try:
+        states = enumerate_states(list(fn.body[:first_loop]) + force)
+    except TooManyStates as e:
+        raise AnalysisError(f"handle_if: {e} while evaluating the emit flags")
+    judged = 0
+    for assign, env, status in states:
+        if status != "fall":
+            continue
+        carriers = [k for k in assign if k.endswith(".constant_value") or k.endswith(".value")]
+        if not carriers:
+            continue
+        if len(carriers) > 1:
+            raise AnalysisError(f"handle_if: one path consults the truth of several constants {carriers}")
+        if not (env.get("__has_b") is True and env.get("__has_o") is True):
+            continue
+        car = carriers[0]
+        T = assign[car]
+        negs = [env.get(f) for f in flags]
+        if any(not isinstance(x, bool) for x in negs):
+            raise AnalysisError(f"handle_if: the negation flag(s) {sorted(flags)} do not evaluate to a boolean")
+        n = any(negs)
+        kind = "folded constant" if car.endswith(".constant_value") else "literal"
+        # the constant that is read belongs to the operand of 'not' (the node the 'not' was stripped from) or to the whole test
+        stripped = (".operand" in car) if n else True
+        python_takes_body = (T != n) if stripped else T
+        executed = "body" if env.get("__b") else ("orelse" if env.get("__o") else "nothing")
+        if env.get("__b") and env.get("__o"):
+            executed = "both arms"
+        exp = "body" if python_takes_body else "orelse"
+        judged += 1
+        chk.judge("R01.b", f"generate_code:{fn.qual}:constant test [{kind}] value={T} negated={n}", executed == exp,
+                  f"for a {kind} {'operand' if stripped else 'test (whose value already includes the not)'} that is {T}{' under not' if n else ''} "
+                  f"the emitted code runs the {executed} arm, Python runs the {exp} arm",
+                  {"reads": car, "facts": {k: v for k, v in assign.items() if v}}, where)
+    if judged < 4:
+        raise AnalysisError(f"handle_if: only {judged} constant-test cases found (expected value x negated for folded constants and literals)")
 
 
 # ---------------------------------------------------------------------- R01.d
@@ -487,6 +491,9 @@ def _used_rhs_kind(v):
 
 def _is_const_reason(t, p):
     tt = norm(t)
+    if p and isinstance(t, ast.BoolOp) and isinstance(t.op, ast.Or):
+        rs = [_is_const_reason(x, True) for x in t.values]      # a disjunction of reasons is a reason
+        return rs[0] if all(rs) and len(set(rs)) == 1 else None
     if p and (tt.endswith(".is_constant") or (isinstance(t, ast.Call) and norm(t.func) == "isinstance" and tt.endswith("nodes.Const)"))):
         return "constant test"
     if p and isinstance(t, ast.Compare) and len(t.ops) == 1 and isinstance(t.ops[0], ast.Eq) and norm(t.left).endswith(".is_read") \
@@ -622,6 +629,9 @@ def r01g(repo, chk):
             want = table.get(r.key)
             if want is None:
                 chk.ok("R01.g", key + " [operator outside the oracle]", None, vacuous=True)
+                continue
+            if not ops or any(not isinstance(op, str) for op in ops):
+                chk.unresolved("R01.g", key, "row opcode could not be evaluated", f"{u.path}:{r.node.lineno} in {fname}")
                 continue
             chk.judge("R01.g", key, bool(ops) and ops <= want,
                       f"operator {r.key!r} is compiled to {sorted(ops, key=repr)}, the documented instruction is {sorted(want)}",
